@@ -3,6 +3,8 @@
 
   seed_eval.py import <worktree> <name>      copy <worktree>/SEED to /verif/seeded/<name>/ and evaluate
   seed_eval.py eval <name> [checks]          (re-)evaluate /verif/seeded/<name> against the listed checks (default: all)
+  seed_eval.py evalall                       re-evaluate every seeded change against the checks that caught it before
+                                             (or its own property's check); prints one line per change
 
 Evaluation (all in /repo, always restored with `git checkout -- . && git clean -fd`):
   1. baseline: demo test passes on the unchanged tree
@@ -12,8 +14,11 @@ Results go to /verif/seeded/<name>/meta.json (key "evaluation").
 """
 import json, os, shutil, subprocess, sys, time
 
-REPO, VERIF = "/repo", "/verif"
+# SEED_REPO / SEED_VERIF: evaluate in a snapshot (e.g. under `vp run`) instead of /repo and /verif
+REPO, VERIF = os.environ.get("SEED_REPO", "/repo"), os.environ.get("SEED_VERIF", "/verif")
 ENV = dict(os.environ, GOFLAGS="-mod=mod", GOPROXY="off", GOSUMDB="off", GOTOOLCHAIN="local")
+if REPO != "/repo":
+    ENV["VERIF_REPO"] = REPO
 ALL = ["C%02d" % i for i in range(1, 21)]
 
 
@@ -78,6 +83,21 @@ def main():
             shutil.copy(os.path.join(wt, "SEED", f), os.path.join(d, f + (".txt" if f.endswith("_test.go") else "")))
         checks = sys.argv[4].split(",") if len(sys.argv) > 4 else ALL
         ev = evaluate(name, checks)
+    elif cmd == "evalall":
+        lost = []
+        for name in sorted(os.listdir(os.path.join(VERIF, "seeded"))):
+            mp = os.path.join(VERIF, "seeded", name, "meta.json")
+            if not os.path.exists(mp):
+                continue
+            meta = json.load(open(mp))
+            prev = meta.get("evaluation", {}).get("caught_by") or [meta.get("property", name[:3].upper())]
+            ev = evaluate(name, prev)
+            ok = ev.get("caught_by") == sorted(prev) and "error" not in ev and ev.get("repo_suite_with_change") == "pass" and ev.get("demo_on_unchanged_tree") == "pass" and ev.get("demo_with_change", "").startswith("fails")
+            print(f"SEED {name}: {'ok' if ok else 'CHANGED'} caught_by={ev.get('caught_by')} before={prev} {ev.get('error','')}", flush=True)
+            if not ok:
+                lost.append(name)
+        print("evalall:", "all as before" if not lost else "CHANGED: " + " ".join(lost))
+        return
     else:
         name = sys.argv[2]
         checks = sys.argv[3].split(",") if len(sys.argv) > 3 else ALL
